@@ -83,7 +83,7 @@ def run(prop, tier, seed, verdict):
         verdict.violation({"clause": "harness-build"}, {"log": blog[-3000:]}, False)
         return {"evaluations": 0, "distinct_nontrivial": 0}
     rng = random.Random(seed * 7 + 20)
-    n = 2000 if tier == "quick" else 60000
+    n = 4000 if tier == "quick" else 60000
     cases = []
     for i in range(n):
         hs = gen_handlers(rng)
